@@ -37,7 +37,7 @@ def _doc():
 
 def strategy(tier):
     p = G.Profile(doc=_doc(), kinds={"class", "attr", "member", "func", "set", "generic", "parseargs", "block"},
-                  max_items=5 if tier == "quick" else 7, depth=3 if tier == "quick" else 5, dangling=False, groups=False, impl_doc=True, dups=True,
+                  max_items=5 if tier == "quick" else 7, depth=3 if tier == "quick" else 5, dangling=False, groups=False, impl_doc=True, dups=2,
                   moddoc=False, body_max=3, tests=False,
                   weights={"class": 5, "member": 2, "attr": 2, "func": 1})
     return st.fixed_dictionaries({"module": G.module(p), "layout": G.layout_choices(24),
